@@ -58,7 +58,13 @@ def run(rep):
     else:
         ttabs = list(multisets(kinds, tmax, 1))
     utabs = list(multisets(kinds, umax, 0))
-    pairs = rotate([(a, b) for a in ttabs for b in utabs], rep.seed)
+    if quick:
+        allpairs = [(a, b) for a in ttabs for b in utabs]
+    else:
+        # the full 3 x 3 product (48,000 table pairs x ~450 statements) does not finish: every pair with <= 2 rows a side, every 3-row outer
+        # against every inner of <= 1 row, and every 1-row outer against every 3-row inner
+        allpairs = [(a, b) for a in ttabs for b in utabs if (len(a) <= 2 and len(b) <= 2) or (len(a) == 3 and len(b) <= 1) or (len(a) == 1 and len(b) == 3)]
+    pairs = rotate(allpairs, rep.seed)
     sh = shapes(not quick)
     units = []
     for (tr, ur) in pairs:
@@ -77,7 +83,7 @@ def run(rep):
                 continue
             st.append({'sql': sql, 'tag': tag + '|noopt', 'mode': 'noopt', 'nontrivial': True, 'alts': alts})
         units.append({'db': db, 'stmts': st})
-    rep.rule = ('outer t(a,b) = all multisets of 1..%d rows, inner u(x,c) = all multisets of 0..%d rows over {NULL,1,2}^2; [NOT] EXISTS (correlated on 1-2 equalities, on an inequality, '
+    rep.rule = ('outer t(a,b) = multisets of 1..%d rows, inner u(x,c) = multisets of 0..%d rows over {NULL,1,2}^2 (quick: every pair listed; thorough: every pair with <= 2 rows a side, 3-row outers with <= 1-row inners, 1-row outers with 3-row inners); [NOT] EXISTS (correlated on 1-2 equalities, on an inequality, '
                 'uncorrelated), [NOT] IN (correlated / uncorrelated), scalar MIN/MAX/COUNT/SUM subqueries under =,<,>= in WHERE and in the SELECT list%s; three executions each: production '
                 'optimizer, production without FlattenDependentJoin/SubqueryDecorrelation (row-by-row executor), bound plan unoptimized; oracle SQLite 3.40' % (tmax, umax, '' if quick else ', pairs combined with AND/OR'))
     sqldiff.run(rep, units)
